@@ -1,6 +1,7 @@
 import RzmqModel.Props.C13
 #print axioms Rzmq.C13.good_init
 #print axioms Rzmq.C13.good_add
+#print axioms Rzmq.C13.good_reachable
 #print axioms Rzmq.C13.good_remove
 #print axioms Rzmq.C13.good_next
 #print axioms Rzmq.C13.next_returns_cursor
